@@ -15,6 +15,9 @@ def check(model: Model, run: Run) -> None:
     # extractor cannot follow
     purity(model, run, None)
     written_as_held(model, run)
+    from ..readerrules import lemma_no_deferred_loop_capture
+    lemma_no_deferred_loop_capture(model, run, ("sansldap._messages", "sansldap._controls", "sansldap._filter", "sansldap._authentication", "sansldap.asn1"),
+                                   "W18-no-deferred-capture-of-loop-variables", "elements of a repeated component are all decoded from (or encoded as) the last one")
     from .c17 import hooks_store_fields_as_given
     wire = sorted(q for q, c in model.classes.items() if c.is_dataclass and c.module in ("sansldap._messages", "sansldap._controls", "sansldap._filter", "sansldap._authentication"))
     hooks_store_fields_as_given(model, run, wire, "W17-fields-held-as-given",
